@@ -177,11 +177,20 @@ func (r *qLogReader) seekRecord(ctx context.Context, olderThan time.Time) (err e
 		return r.SeekStart()
 	}
 
-	err = r.seekTS(ctx, olderThan.UnixNano())
-	if err == nil {
-		// Read to the next record, because we only need the one that goes
-		// after it.
-		_, err = r.ReadNext()
+	ts := olderThan.UnixNano()
+	err = r.seekTS(ctx, ts)
+	if err != nil {
+		return err
+	}
+
+	// Read to the next record, because we only need the one that goes after
+	// it.  But seekTS also succeeds, with the position set to the newest
+	// record, when olderThan is newer than every record of a file, for example
+	// when it is the time of an entry that is still in the memory buffer.  In
+	// that case there is nothing to skip.
+	line, err := r.ReadNext()
+	if err == nil && readQLogTimestamp(ctx, r.logger, line) != ts {
+		err = r.SeekStart()
 	}
 
 	return err
